@@ -12,6 +12,10 @@ import PM.Regex
 import PM.Compile
 import Proofs.Regex
 import Proofs.CompileMain
+import Proofs.SchemaBuild
+import Proofs.SchemaBuildLive
+import Proofs.Placement
+import Props.C15
 namespace PM.C06
 open PM
 
@@ -68,7 +72,7 @@ example : equivCheck #[⟨false, [(1, 1)]⟩, ⟨true, []⟩] [0, 1] (RE.plus (R
 /-- stage 1, the Thompson-style construction: the words read along the paths of the finished NFA from node 0 to
     the accepting node (`ε` = an edge with `term = none`) are exactly the words of the expression -/
 theorem nfa_correct (e : Expr) (h : e.wf = true) (w : List Nat) :
-    Path (nfaState e).edges 0 w (cnt e + 1) ↔ w ∈ e.toRE.lang := PM.nfa_correct e h w
+    NPath (nfaState e).edges 0 w (cnt e + 1) ↔ w ∈ e.toRE.lang := PM.nfa_correct e h w
 
 /-- stage 2, `null_from`: the ε-closure without the pass-through nodes, for every NFA -/
 theorem nullFrom_spec (N : Nfa) (hN : N.WF) (n : Nat) (hn : n < N.size) (m : Nat) :
@@ -128,5 +132,232 @@ example : (Expr.seq [.plus (.choice [.name 1, .seq [.name 2, .name 3]]), .range 
 /-- … and needed: an empty `choice` compiles to an automaton that does not even accept the empty sequence,
     while every `RE` has a word -/
 example : (dfa (nfa (.choice []))).accepts [] = false := by decide +kernel
+
+/-! ### the schema constructor as a whole (`PM/SchemaBuild.lean: buildSchema`, tied to `Schema(spec)`: full dump or
+    kind of refusal, for every generated spec)
+
+  `buildSchema spec` reproduces `Schema.__init__`: node and mark tables, then per node type the content expression
+  (parser with the node-type table, `nfa`, `dfa`, `check_for_dead_ends`, behind `content_expr_cache`),
+  `inline_content`, `mark_set`, then `excluded`.  The theorems below hold for **every** spec the constructor
+  accepts; none of them has a hypothesis besides acceptance (and, for the table statements, that the mark names
+  are distinct — a Python dict cannot hold a key twice). -/
+
+open PM.SchemaCompile PM.SchemaBuild PM.ParseC
+
+/-- **C06 for the schema as a whole**: in a schema the constructor accepts, the content expression of every node
+    type parses (to `oe`; `none` = no token), the automaton the schema holds for it is the compiled one, it accepts
+    a sequence of child types exactly when the expression, read as a regular expression, matches it, and it keeps
+    a match state alive after a prefix exactly when the prefix can be extended to a match -/
+theorem buildSchema_content_correct {spec : Spec} {S : Schema} (h : buildSchema spec = .ok S)
+    (i : Nat) (hi : i < spec.nodes.length) :
+    ∃ oe, parseC (nameTable spec) spec.nodes[i].content = .ok oe ∧ S.dfa i = contentDfa oe ∧
+      (∀ w, (S.dfa i).accepts w = true ↔ w ∈ (contentRE oe).lang) ∧
+      (∀ w, ((S.dfa i).run 0 w).isSome = true ↔ ∃ v, w ++ v ∈ (contentRE oe).lang) := by
+  obtain ⟨oe, h1, h2, _, h4, h5⟩ := contentMatch_lang ((buildSchema_ok h).dfa i hi)
+  exact ⟨oe, h1, h2, h4, h5⟩
+
+/-- the parser never builds an empty `choice` / `seq`: the hypothesis `Expr.wf` of `compile_accepts` / `compile_live`
+    holds for every expression it returns, and the names it resolves are node types of the table -/
+theorem parseC_wf {table : List NameInfo} {s : String} {e : Expr} (h : parseC table s = .ok (some e)) :
+    e.wf = true ∧ ∀ t, t ∈ e.names → t < table.length := by
+  unfold parseC at h
+  simp only at h
+  split at h
+  · cases h
+  · split at h
+    · cases h
+    · rename_i r hp
+      simp only [Except.ok.injEq, Option.some.injEq] at h
+      subst h
+      obtain ⟨_, hok, _⟩ := parseToks_ok hp
+      exact ⟨hok.1, fun t ht => (hok.2 t ht).1⟩
+
+/-- the recursion guard of the parser model is never the reason of a refusal -/
+theorem parseC_total (table : List NameInfo) (s : String) : parseC table s ≠ .error .fuel :=
+  parseC_ne_fuel table s
+
+/-- **every schema the constructor accepts is live, deterministic and in range**: the guards of C15
+    (`LiveSchema`, so `createAndFill_nothing_iff` / `createAndFill_raises` apply; `DfaWF`, `WrapWF`) and of C19
+    (`Det`) are theorems about constructed schemas -/
+theorem buildSchema_live {spec : Spec} {S : Schema} (h : buildSchema spec = .ok S) :
+    C15.LiveSchema S ∧ FromDom.Det S ∧ (∀ t, C15.DfaWF (S.dfa t)) ∧ (∀ t q, C15.WrapWF S (S.dfa t) q) := by
+  have b := buildSchema_ok h
+  have hlive : C15.LiveSchema S := by
+    intro nt hnt
+    obtain ⟨i, hi, rfl⟩ := List.getElem_of_mem hnt
+    simp only [Array.length_toList] at hi
+    have hi' : i < spec.nodes.length := by rw [← b.size]; exact hi
+    have hc := contentMatch_live (b.dfa i hi')
+    have hd : S.dfa i = S.nodes[i].dfa := by simp [Schema.dfa, Schema.nodeType, hi]
+    rw [hd, ← b.size, ← b.generatable] at hc
+    exact hc
+  have ha := hlive.toAut
+  refine ⟨hlive, ha.det, fun t q ty q' hm => (ha.wf t q ty q' hm).1, fun t q => ⟨fun e he => ?_, fun nt hnt e he => ?_⟩⟩
+  · exact (ha.wf t q e.1 e.2 he).2
+  · obtain ⟨i, hi, rfl⟩ := List.getElem_of_mem hnt
+    simp only [Array.length_toList] at hi
+    have hd : S.dfa i = S.nodes[i].dfa := by simp [Schema.dfa, Schema.nodeType, hi]
+    simp only [Array.getElem_toList] at he
+    rw [← hd] at he
+    exact (ha.wf i 0 e.1 e.2 he).2
+
+/-- **no dead end, read on the sequences**: in an accepted schema, whatever child sequence can still be extended
+    to a match of a node type's content expression can be completed to one by generatable node types alone
+    (not text, no required attribute) — what `fill_before` / `create_and_fill` rely on -/
+theorem buildSchema_completable {spec : Spec} {S : Schema} (h : buildSchema spec = .ok S)
+    (i : Nat) (hi : i < spec.nodes.length) (oe : Option Expr)
+    (hp : parseC (nameTable spec) spec.nodes[i].content = .ok oe) (w : List Nat)
+    (hw : ∃ v, w ++ v ∈ (contentRE oe).lang) :
+    ∃ v, (∀ t, t ∈ v → S.generatable t = true) ∧ w ++ v ∈ (contentRE oe).lang := by
+  obtain ⟨oe', h1, _, h4, h5⟩ := buildSchema_content_correct h i hi
+  rw [hp] at h1
+  simp only [Except.ok.injEq] at h1
+  subst h1
+  obtain ⟨hl, hdet, hwf, _⟩ := buildSchema_live h
+  have b := buildSchema_ok h
+  have hpos : 0 < (S.dfa i).size := hl.toAut.pos i (by rw [b.size]; exact hi)
+  have hdead : (S.dfa i).hasDeadEnd S.generatable = false := by
+    rcases contentMatch_ok (b.dfa i hi) with ⟨_, he⟩ | ⟨_, e, _, _, hd⟩
+    · rw [he]; exact emptyMatch_noDeadEnd _
+    · rw [b.generatable]; exact hd
+  obtain ⟨v, hv, hacc⟩ := live_complete (S.dfa i) ⟨hpos, fun q e he => hwf i q e.1 e.2 he⟩ (hdet i) S.generatable hdead w
+    ((h5 w).2 hw)
+  exact ⟨v, fun t ht => List.all_eq_true.1 hv t ht, (h4 _).1 hacc⟩
+
+/-- what the content expression of node type `i` must look like for the constructor to accept the spec -/
+structure WellFormedContent (spec : Spec) (i : Nat) (hi : i < spec.nodes.length) : Prop where
+  /-- groups and ranges are closed: as many `(` as `)`, as many `{` as `}` -/
+  parens : (tokenize spec.nodes[i].content).count "(" = (tokenize spec.nodes[i].content).count ")"
+  braces : (tokenize spec.nodes[i].content).count "{" = (tokenize spec.nodes[i].content).count "}"
+  /-- every word that is not a number is a node type or a group with members -/
+  known : ∀ t, t ∈ tokenize spec.nodes[i].content → isWordTok t = true → startsWithDigit t = false →
+    resolveIds (nameTable spec) t ≠ []
+  /-- all the types the words stand for are inline, or all are block -/
+  unmixed : ∀ t t', t ∈ tokenize spec.nodes[i].content → t' ∈ tokenize spec.nodes[i].content →
+    isWordTok t = true → startsWithDigit t = false → isWordTok t' = true → startsWithDigit t' = false →
+    ∀ a b, a ∈ resolveIds (nameTable spec) t → b ∈ resolveIds (nameTable spec) t' →
+      ((nameTable spec)[a]!).isInline = ((nameTable spec)[b]!).isInline
+  /-- no required position that only non-generatable types can fill: every extendable sequence has a completion by
+      generatable types -/
+  live : ∀ oe, parseC (nameTable spec) spec.nodes[i].content = .ok oe → ∀ w, (∃ v, w ++ v ∈ (contentRE oe).lang) →
+    ∃ v, (∀ t, t ∈ v → specGen spec t = true) ∧ w ++ v ∈ (contentRE oe).lang
+
+/-- an accepted spec has well-formed content expressions throughout -/
+theorem buildSchema_wellFormed {spec : Spec} {S : Schema} (h : buildSchema spec = .ok S)
+    (i : Nat) (hi : i < spec.nodes.length) : WellFormedContent spec i hi := by
+  have b := buildSchema_ok h
+  have hlive : ∀ oe, parseC (nameTable spec) spec.nodes[i].content = .ok oe → ∀ w,
+      (∃ v, w ++ v ∈ (contentRE oe).lang) →
+      ∃ v, (∀ t, t ∈ v → specGen spec t = true) ∧ w ++ v ∈ (contentRE oe).lang := by
+    intro oe hp w hw
+    have := buildSchema_completable h i hi oe hp w hw
+    rwa [b.generatable] at this
+  rcases contentMatch_ok (b.dfa i hi) with ⟨hc, _⟩ | ⟨_, e, hp, _, _⟩
+  · have ht : tokenize spec.nodes[i].content = [] := by
+      have := tokenize_isEmpty spec.nodes[i].content
+      rw [hc] at this
+      simpa using this
+    exact ⟨by simp [ht], by simp [ht], fun t hm => by rw [ht] at hm; simp at hm,
+      fun t t' hm => by rw [ht] at hm; simp at hm, hlive⟩
+  · obtain ⟨inl, _, hg⟩ := parseToks_ok hp
+    have hk : ∀ t, t ∈ tokenize spec.nodes[i].content → isWordTok t = true → startsWithDigit t = false →
+        resolveIds (nameTable spec) t ≠ [] ∧
+          ∀ a, a ∈ resolveIds (nameTable spec) t → inl = some ((nameTable spec)[a]!).isInline := by
+      intro t hm hw hd
+      rcases hg.toks t hm hw with h' | h'
+      · rw [hd] at h'; cases h'
+      · exact h'
+    refine ⟨hg.paren, hg.brace, fun t hm hw hd => (hk t hm hw hd).1, ?_, hlive⟩
+    intro t t' hm hm' hw hd hw' hd' a b ha hb
+    have e1 := (hk t hm hw hd).2 a ha
+    have e2 := (hk t' hm' hw' hd').2 b hb
+    rw [e1] at e2
+    exact Option.some.inj e2
+
+/-- **malformed expressions are rejected when the schema is built** (the last clause of C06): a spec with a node
+    type whose content expression has an unclosed group or range, a word that is neither a node type nor a group,
+    inline and block types mixed, or a required position only non-generatable types can fill, is refused -/
+theorem buildSchema_rejects_malformed (spec : Spec) (i : Nat) (hi : i < spec.nodes.length)
+    (hbad : ¬ WellFormedContent spec i hi) : ∃ err, buildSchema spec = .error err := by
+  cases hb : buildSchema spec with
+  | error err => exact ⟨err, rfl⟩
+  | ok S => exact absurd (buildSchema_wellFormed hb i hi) hbad
+
+/-- … with its reason: a spec whose tables are in order is refused by the content compiler exactly at the first node
+    type (in declaration order) whose expression `ContentMatch.parse` refuses — stated as: if the constructor
+    accepts, `ContentMatch.parse` accepted every expression -/
+theorem buildSchema_parses {spec : Spec} {S : Schema} (h : buildSchema spec = .ok S)
+    (i : Nat) (hi : i < spec.nodes.length) : contentMatch spec spec.nodes[i].content = .ok (S.dfa i) :=
+  (buildSchema_ok h).dfa i hi
+
+/-- **the table theorems hold for the constructor as a whole**: an accepted spec went through the table compiler
+    with the automata the content compiler built, so every theorem about `compileSchema spec dfas = .ok S` applies
+    (`excluded_spec`, `markSet_spec` … of `Props/C14.lean`, `nodeTable_spec` … of `Props/C07.lean`; restated for
+    `buildSchema` as `C14.buildSchema_excluded`, `C14.buildSchema_markSet` there and `buildSchema_nodeTable` below) -/
+theorem buildSchema_tables {spec : Spec} {S : Schema} (h : buildSchema spec = .ok S) :
+    compileSchema spec (S.nodes.toList.map (·.dfa)) = .ok S := (buildSchema_ok h).compiled
+
+/-- `nodeTable_spec` (C07) for the constructor as a whole, with the automaton now determined by the spec alone: it is
+    what `ContentMatch.parse` returns for the content expression (`ContentMatch.empty` exactly when the expression has
+    no token) -/
+theorem buildSchema_nodeTable {spec : Spec} {S : Schema} (h : buildSchema spec = .ok S)
+    (i : Nat) (hi : i < spec.nodes.length) :
+    (S.nodeType i).name = spec.nodes[i].name ∧
+    (S.nodeType i).isText = (spec.nodes[i].name == "text") ∧
+    (S.nodeType i).isInline = (spec.nodes[i].inline || spec.nodes[i].name == "text") ∧
+    (S.nodeType i).isLeaf = contentEmpty spec.nodes[i].content ∧
+    (S.nodeType i).isAtom = ((S.nodeType i).isLeaf || spec.nodes[i].atom) ∧
+    (S.nodeType i).isolating = spec.nodes[i].isolating ∧
+    (S.nodeType i).defining = spec.nodes[i].defining ∧
+    (S.nodeType i).code = spec.nodes[i].code ∧
+    contentMatch spec spec.nodes[i].content = .ok (S.dfa i) ∧
+    ((S.nodeType i).isLeaf = true ↔ S.dfa i = emptyMatch ∧ (tokenize spec.nodes[i].content).isEmpty = true) ∧
+    (S.nodeType i).inlineContent = inlineContentOf spec.nodes (S.dfa i) := by
+  have c := compileSchema_ok (buildSchema_tables h)
+  obtain ⟨_, h1, h2, h3, h4, h5, h6, h7, h8, _, h10, h11, _⟩ := compileNode_ok (c.node i hi)
+  refine ⟨h1, h2, h3, h4, by rw [h5, h4], h6, h7, h8, buildSchema_parses h i hi, ?_, h11⟩
+  rw [h4, tokenize_isEmpty]
+  constructor
+  · intro hc
+    refine ⟨?_, hc⟩
+    rw [Schema.dfa, h10, hc]; rfl
+  · exact fun hh => hh.2
+
+/-- non-vacuity: a spec the constructor accepts (doc / paragraph / text / a line break / an inline image with a
+    required attribute / a mark) with its automata, three it refuses for the three documented reasons, one on which the parser dies, and one
+    with a dead end.  (Kernel evaluation: the expressions are kept to sequences and names — `List.mergeSort`, which
+    `null_from` and `dfa` call, is defined by well-founded recursion and does not evaluate in the kernel on lists of two
+    or more elements; the tie runs the compiled model on thousands of specs with repetitions, groups and choices.) -/
+private def exSpec : Spec := {
+  nodes := [
+    { name := "doc", content := "p p" },
+    { name := "p", content := "br", group := some "block" },
+    { name := "text", group := some "inline" },
+    { name := "br", inline := true, group := some "inline" },
+    { name := "img", inline := true, group := some "inline", attrs := [{ name := "src" }] }],
+  marks := [{ name := "em" }] }
+
+private def exWith (c : String) : Spec :=
+  { exSpec with nodes := exSpec.nodes.map (fun n => if n.name == "doc" then { n with content := c } else n) }
+
+example : ((buildSchema exSpec).toOption.map (fun S => S.nodes.toList.map (fun n =>
+      n.dfa.toList.map (fun s => (s.validEnd, s.edges))))) =
+    some [[(false, [(1, 1)]), (false, [(1, 2)]), (true, [])], [(false, [(3, 1)]), (true, [])], [(true, [])],
+      [(true, [])], [(true, [])]] := by
+  decide +kernel
+example : (match buildSchema (exWith "(p") with | .error e => some e | .ok _ => none) = some (.content .syntax) := by
+  decide +kernel
+example : (match buildSchema (exWith "p{2") with | .error e => some e | .ok _ => none) = some (.content .syntax) := by
+  decide +kernel
+example : (match buildSchema (exWith "p nosuch") with | .error e => some e | .ok _ => none) =
+    some (.content .unknownName) := by decide +kernel
+example : (match buildSchema (exWith "p text") with | .error e => some e | .ok _ => none) = some (.content .mixed) := by
+  decide +kernel
+example : (match buildSchema (exWith "p |") with | .error e => some e | .ok _ => none) = some (.content .noToken) := by
+  decide +kernel
+example : (match buildSchema { exSpec with nodes := exSpec.nodes ++ [{ name := "fig", content := "img" }] } with
+    | .error e => some e | .ok _ => none) = some .deadEnd := by decide +kernel
+/-- the malformed ones are not `WellFormedContent` for the stated reason: an unclosed group -/
+example : ¬ WellFormedContent (exWith "(p") 0 (by decide) := fun h => absurd h.parens (by decide)
 
 end PM.C06
